@@ -224,6 +224,26 @@ func checkC10(r *harness.Run) harness.Coverage {
 		}
 	}
 	run(extExprs, univ.Js(`{"a":1}`))
+	// (5b) LONG ill-typed arguments (error messages quote or truncate the offending value: bytes vs runes): strings of
+	// 17-70 multi-byte characters, long arrays and objects of them, long ASCII; the sizes also follow the mined constants
+	{
+		var longVals []string
+		for _, n := range harness.Sizes([]int{17, 25, 40, 61, 64, 65, 70}, 15, 300) {
+			for _, unit := range []string{"あ", "é", "😀", "x", "日é"} {
+				longVals = append(longVals, "\""+strings.Repeat(unit, n)+"\"")
+			}
+		}
+		longVals = append(longVals, "[\""+strings.Repeat("あ", 30)+"\", \""+strings.Repeat("é", 30)+"\"]", "{\""+strings.Repeat("😀", 20)+"\": \""+strings.Repeat("日", 25)+"\"}", "["+strings.TrimSuffix(strings.Repeat("\"é\",", 40), ",")+"]")
+		var lvExprs []exprCase
+		for _, name := range names {
+			for _, u := range longVals {
+				lvExprs = append(lvExprs, exprFromText(name+"(`"+u+"`)"), exprFromText(name+"(a, `"+u+"`)"), exprFromText(name+"(`"+u+"`, a)"), exprFromText(name+"(b)"))
+			}
+		}
+		docsL := []interface{}{map[string]interface{}{"a": 1.0, "b": strings.Repeat("あ", 25)}, map[string]interface{}{"a": []interface{}{1.0}, "b": map[string]interface{}{strings.Repeat("é", 40): strings.Repeat("😀", 17)}}}
+		run(lvExprs, docsL)
+		r.Note("long_ill_typed_arguments", len(lvExprs))
+	}
 	// (6) every arity-1 and arity-2 call inside a larger expression: after a null or non-null left-hand side,
 	// as a multi-select member, after a pipe, as an argument of not_null before/after a non-null argument,
 	// as a projection right-hand side. The reference evaluator decides whether the call is reached.
